@@ -241,6 +241,33 @@ theorem C01_accessors_and_reencoding (p : Packet) (h : p.InDomainL) (bs : Bytes)
   obtain ⟨h1, _⟩ := C01_roundtrip p h bs he (Reader.contig bs) [] (by simp [Reader.contig])
   exact ⟨p, h1, rfl, rfl, by rw [Packet.encodeG_eq, he]⟩
 
+/-- **a whole session**: any number of in-domain packets written back to back into one stream are
+read back, by as many `ReadPacket` calls, as exactly those packets in that order — for every
+fragmentation schedule of the reader and whatever follows the last frame (which is left unread).
+One packet's content can therefore never leak into, truncate or shift its neighbour's. -/
+theorem C01_stream : ∀ (pbs : List (Packet × Bytes)) (r : Reader) (tail : Bytes),
+    (∀ x ∈ pbs, x.1.InDomainL ∧ x.1.encode = .bytes x.2) →
+    r.data = (pbs.map (·.2)).flatten ++ tail →
+    (readAll pbs.length r).1 = pbs.map (fun x => RP.pkt x.1) ∧ (readAll pbs.length r).2.data = tail := by
+  intro pbs
+  induction pbs with
+  | nil => intro r tail _ hd; simpa [readAll] using hd
+  | cons x pbs ih =>
+    intro r tail hall hd
+    have hx := hall x (by simp)
+    have h1 := C01_roundtrip x.1 hx.1 x.2 hx.2 r ((pbs.map (·.2)).flatten ++ tail) (by rw [hd]; simp)
+    have h2 := ih (readPacket r).2 tail (fun q hq => hall q (by simp [hq])) h1.2
+    simp only [List.length_cons, readAll, List.map_cons]
+    exact ⟨by rw [h1.1, h2.1], h2.2⟩
+
+/-- non-vacuity: PINGREQ, a PUBACK and a DISCONNECT on one stream, one byte at a time, with a stray
+trailing byte -/
+example :
+    let r : Reader := { data := [0xc0, 0x00, 0x40, 0x02, 0x00, 0x01, 0xe0, 0x00, 0xaa], sched := List.replicate 12 1 }
+    (readAll 3 r).1 = [.pkt (.pingreq { fixed := 0xc0 }), .pkt (.puback { fixed := 0x40, packetID := 1 }),
+                        .pkt (.disconnect { fixed := 0xe0 })]
+      ∧ (readAll 3 r).2.data = [0xaa] := by decide
+
 /-- non-vacuity and the boundary the property was written for: a PUBLISH whose topic is `n` bytes
 long, for every `n` up to 65 535, is in the domain -/
 example (n : Nat) (hn : n < 65536) : (Packet.publish { topicName := List.replicate n 0x61 }).InDomain := by
